@@ -43,6 +43,11 @@ def instances(tier):
         out.append(dict(id="steps-%s-N%d" % (fam, n), family=fam, N=n, mode="steps", budget=b))
         if kind == "implicit":
             out.append(dict(id="steps-%s-N2-solverfail" % fam, family=fam, N=2, mode="steps", root_success="fork", budget=b))
+    # a ValueError raised once by the rhs is swallowed by the integrator's retry (known finding of C12): the retried step and all later
+    # ones still have the requested size
+    for fam in (["rk4"] if tier == "quick" else ["euler", "rk4", "midpoint"]):
+        for k in ((3,) if tier == "quick" else (2, 3, 6)):
+            out.append(dict(id="steps-%s-N3-valueerror-k%d" % (fam, k), family=fam, N=3, mode="steps", rhs_valueerror_at=k, budget=b))
     for fam in (["euler", "sympl_euler"] if tier == "quick" else ["euler", "rk4", "midpoint", "sympl_euler", "abas5o6h"]):
         out.append(dict(id="two-calls-%s-N4" % fam, family=fam, N=4, mode="twocalls", budget=b))
         out.append(dict(id="two-calls-reversal-%s-N3" % fam, family=fam, N=3, mode="twocalls", reverse=True, budget=b))
@@ -73,7 +78,10 @@ def scenario(c, inst):
     mode = inst["mode"]
     cap = inst["N"] + 3
     if mode == "steps":
-        st, built = run(spans.build_system, c, inst, t0, tf, dt0)
+        rhs_in = None
+        if inst.get("rhs_valueerror_at") is not None:
+            rhs_in = FreshRhs(c, shape, fault_at=inst["rhs_valueerror_at"], fault_exc=ValueError("transient"))
+        st, built = run(spans.build_system, c, inst, t0, tf, dt0, False, rhs_in)
         if st == "exc":
             c.check("c04.constructs", False, info=repr(built))
             return
